@@ -45,8 +45,36 @@ def run(rep, tier, seed, budget):
         plan += [("chr", n) for n in (1, 2, 3)] + [("tok", n) for n in (1, 2)] + [("tok16", 3)]
     else:
         plan += [("chr", n) for n in (1, 2, 3, 4)] + [("tok", n) for n in (1, 2, 3, 4, 5)]
+    KA = ["c", "n", "o", "[nH]", "C", "[n]"]
+    RINGS = [["c1", KA, KA, ["", "c", "cc", "ccc", "cccc"], "1", ["", "C", ".C"]],
+             [["C", ""], "c1", KA, "c2", KA, ["c", "cc", ""], KA, "c2", ["", "c"], "1"],
+             ["c1", ["c", "n"], ["c", ""], "c2", ["c", "cc"], ["2", "c2"], ["c1", "1", "cc1"]]]
+    plan += [("ring", i) for i in range(len(RINGS))]
     for kind, n in plan:
         left = t_end - time.time()
+        if kind == "ring":
+            name = "aromatic ring template %d (3- to 7-membered and fused rings, kinds free; kekulizable or not)" % n
+            if left < 5:
+                rep.parts.append({"name": name, "complete": False, "paths": 0, "bounds": {"template": RINGS[n]}, "claim": "not started (time budget)"})
+                continue
+
+            def ring_level(t):
+                def path(eng, col):
+                    ctx.reset()
+                    strict = fresh_bool("strict")
+                    attr = fresh_bool("attribute")
+                    s_ = make_slots("r", t)
+                    r = ench.run_encoder(ctx, s_, strict=strict, attribute=attr)
+                    m0 = eng.current_model()
+                    col.count(r[0])
+                    col.nontrivial((r[0], str(s_)))
+                    if r[0] == "exc":
+                        col.candidate({"prop": "C09", "kind": "encoder_total", "smiles": model_value(eng.current_model(), s_),
+                                       "strict": bool(model_value(m0, strict)), "attribute": bool(model_value(m0, attr))})
+                return path
+            res = driver.explore_parallel(ring_level(RINGS[n]), left * 0.5, on_budget=on_budget, max_decisions=2000)
+            rep.add_part(name, res, {"template": RINGS[n], "flags": "strict, attribute free"})
+            continue
         alts = ench.SMI_CHARS if kind == "chr" else (ench.SMI_TOKENS if kind == "tok" else
                                                     ["C", "N", "c", "n", "[nH]", "[O-]", "=C", ":c", ":C", "(", ")", "1", "=1", "%10", ".", "%1"])
         name = ("M-CHR N=%d: all strings over %d characters" if kind == "chr"
